@@ -23,6 +23,16 @@ CLAIMED = {
                  "that the regenerated expression is compiled correctly (library).",
         "note": _TB,
     },
+    "C19": {
+        "technique": "static analysis: abstract execution of each thin wrapper under all flag scenarios; callee and "
+                     "argument normal forms (rational-function canonical forms) compared with a spec table; closed-form "
+                     "densities compared with references as polynomials over log/lgamma atoms; declared-parameter use",
+        "level": "Decides for every d/p/q/r helper, on every flag path (log, seed None/int, n=1/n>1), which scipy/numpy "
+                 "routine is called with which arguments, and compares with R's parameterisation (scale=1/rate etc.); "
+                 "decides that seeded generators draw from test_seed(seed); proves nb2pmf == NB(n=k,p=k/(k+mu)) and "
+                 "gamma_mu_shape == Gamma(a, scale=mu/a) as identities of canonical forms. Does not decide scipy's numerics.",
+        "note": _TB + "; spec table sa/specs/utilr.py",
+    },
 }
 
 NOT_APPLICABLE = {}
